@@ -94,6 +94,13 @@ func gen(tier string, seed int64) []hx.Scenario {
 		}
 	}
 	out = append(out, hx.Scenario{Name: "bdn", Cfg: "sig=G1 n=9 mask=101010101 via=SetBit", Pairing: true, Run: func(x *hx.Ctx) { bdnCase(x, "G1", 9, 0b101010101, "SetBit") }})
+	// rosters spanning several mask bytes: participants only in a later byte, empty bytes in the middle, byte boundaries
+	for ci, mb := range multiByteMasks(tier) {
+		n, m := mb[0], mb[1]
+		g := []string{"G1", "G2"}[ci%2]
+		cons := []string{"SetBit", "SetMask", "Merge", "Clone", "myKey", "SetBitToggle"}[ci%6]
+		out = append(out, hx.Scenario{Name: "bdn", Cfg: fmt.Sprintf("sig=%s n=%d mask=%0*b via=%s", g, n, n, m, cons), Pairing: true, Run: func(x *hx.Ctx) { bdnCase(x, g, n, m, cons) }})
+	}
 	// CoSi
 	maxC := 4
 	if tier == "thorough" {
@@ -105,6 +112,26 @@ func gen(tier string, seed int64) []hx.Scenario {
 		}
 	}
 	out = append(out, hx.Scenario{Name: "cosi", Cfg: "n=9 mask=110010011", Run: func(x *hx.Ctx) { cosiCase(x, 9, 0b110010011) }})
+	for _, mb := range multiByteMasks(tier) {
+		n, m := mb[0], mb[1]
+		out = append(out, hx.Scenario{Name: "cosi", Cfg: fmt.Sprintf("n=%d mask=%0*b", n, n, m), Run: func(x *hx.Ctx) { cosiCase(x, n, m) }})
+	}
+	return out
+}
+
+// multiByteMasks: (n, mask) pairs whose mask needs more than one byte.
+func multiByteMasks(tier string) [][2]int {
+	bits := func(n int, on ...int) [2]int {
+		m := 0
+		for _, i := range on {
+			m |= 1 << i
+		}
+		return [2]int{n, m}
+	}
+	out := [][2]int{bits(10, 8), bits(10, 8, 9), bits(10, 9), bits(10, 0, 9), bits(10, 7, 8), bits(9, 8), bits(16, 7, 8, 15), bits(17, 16), bits(17, 8, 16), bits(17, 0, 16), bits(17, 15, 16)}
+	if tier == "thorough" {
+		out = append(out, bits(24, 16, 23), bits(25, 24), bits(25, 0, 8, 16, 24), bits(33, 32), bits(33, 7, 32), bits(12, 8, 9, 10, 11), bits(16, 8), bits(16, 15))
+	}
 	return out
 }
 
@@ -355,8 +382,15 @@ func bdnCase(x *hx.Ctx, sig string, n, maskBits int, cons string) {
 	x.Err("other message", sch.Verify(aggK, []byte("other"), sb))
 	// every other mask must fail
 	ref, _ := bdn.NewMask(keyG, pubs, nil)
+	var others []int
 	for m2 := 1; m2 < 1<<n && n <= 4; m2++ {
-		if m2 == maskBits {
+		others = append(others, m2)
+	}
+	for i := 0; i < n && n > 4; i++ { // larger rosters: every mask at Hamming distance one
+		others = append(others, maskBits^(1<<i))
+	}
+	for _, m2 := range others {
+		if m2 == maskBits || m2 == 0 {
 			continue
 		}
 		o := ref.Clone()
